@@ -5,7 +5,7 @@ import session, smtpworld as W
 import importlib.util
 from vlib import hexs
 
-REQUIRED = ['writen_valid', 'writen_no_fault', 'valid_reply_no_bare_crlf', 'multiline_is_concat', 'templates_in_contract']
+REQUIRED = ['writen_valid', 'writen_no_fault', 'valid_reply_no_bare_crlf', 'multiline_is_concat', 'templates_in_contract', 'own_code_text_valid']
 
 
 def gen_text(rng, L, mode):
